@@ -128,8 +128,16 @@ func driveStream(c *DriverCtx) error {
 				k = 5 + r.Intn(16)
 			}
 			ts := []string{t}
+			sameType := IsFrame(t) && i%2 == 1 // a stream of one frame type carrying different bodies
 			for j := 1; j < k; j++ {
-				ts = append(ts, all[r.Intn(len(all))])
+				if sameType {
+					ts = append(ts, t)
+				} else {
+					ts = append(ts, all[r.Intn(len(all))])
+				}
+			}
+			if sameType && k < 3 {
+				ts = append(ts, t, t)
 			}
 			ops := []Op{}
 			for j, tj := range ts {
@@ -148,8 +156,15 @@ func driveStream(c *DriverCtx) error {
 				}
 				ops = append(ops, Op{Op: "write", B: "b", Bytes: tail, Tag: "tail"})
 			}
+			recycle := i%2 == 1 // a receive loop that reuses one receiver per message type
+			seen := map[string]bool{}
 			for j, tj := range ts {
-				ops = append(ops, Op{Op: "decode", B: "b", O: fmt.Sprintf("r%d", j), T: tj, Fresh: true})
+				if recycle {
+					ops = append(ops, Op{Op: "decode", B: "b", O: "recv:" + tj, T: tj, Fresh: !seen[tj], Tag: "recycled-receiver"})
+					seen[tj] = true
+				} else {
+					ops = append(ops, Op{Op: "decode", B: "b", O: fmt.Sprintf("r%d", j), T: tj, Fresh: true})
+				}
 			}
 			ops = append(ops, Op{Op: "peek", B: "b"})
 			if err := c.Run(ops); err != nil {
@@ -232,7 +247,18 @@ func driveReencode(c *DriverCtx) error {
 			if i%4 == 3 {
 				w = append(w, c.junk(1+c.G.R.Intn(5))...)
 			}
-			ops := []Op{{Op: "load", B: "b", Bytes: w}, {Op: "decode", B: "b", O: "r", T: t, Fresh: true}, {Op: "encode", B: "b2", O: "r", Tag: "reencode"}}
+			if slots != nil && i%3 == 1 {
+				// a frame that announces a longer body than its layout reads: k slack bytes are put
+				// after the body and the length field is raised by k (decoders that trust the
+				// length would swallow them)
+				w = withSlack(t, w, slots, 1+c.G.R.Intn(6), c)
+			}
+			ops := []Op{{Op: "load", B: "b", Bytes: w}, {Op: "decode", B: "b", O: "r", T: t, Fresh: true}}
+			if i%2 == 1 {
+				// the receive buffer is recycled before the message is sent on
+				ops = append(ops, Op{Op: "scribble", B: "b", K: 32, Tag: "recycle-receive-buffer"})
+			}
+			ops = append(ops, Op{Op: "encode", B: "b2", O: "r", Tag: "reencode"})
 			if err := c.Run(ops); err != nil {
 				return err
 			}
@@ -241,9 +267,52 @@ func driveReencode(c *DriverCtx) error {
 	return nil
 }
 
+// withSlack returns the frame image w with k extra bytes between body and trailer and the
+// length field ('n' slot) increased by k; w is returned unchanged when t has no length field.
+func withSlack(t string, w []int, slots []byte, k int, c *DriverCtx) []int {
+	p := -1
+	for i := range slots {
+		if i < len(w) && slots[i] == 'n' {
+			p = i
+			break
+		}
+	}
+	if p < 0 || p+4 > len(w) {
+		return w
+	}
+	le := S.Protocols[S.Types[t].Proto].Endian == "LE"
+	n := 0
+	for j := 0; j < 4; j++ {
+		if le {
+			n |= w[p+j] << uint(8*j)
+		} else {
+			n = n<<8 | w[p+j]
+		}
+	}
+	n += k
+	out := append([]int{}, w...)
+	for j := 0; j < 4; j++ {
+		if le {
+			out[p+j] = (n >> uint(8*j)) & 0xff
+		} else {
+			out[p+3-j] = (n >> uint(8*j)) & 0xff
+		}
+	}
+	trailer := 0
+	for i := range slots {
+		if i < len(w) && slots[i] == 'c' {
+			trailer++
+		}
+	}
+	end := len(slots) - trailer // end of the body within the frame image
+	res := append([]int{}, out[:end]...)
+	res = append(res, c.junk(k)...)
+	return append(res, out[end:]...)
+}
+
 // SlotMap classifies every byte of the encoding w of value v (type t), following the pinned
 // schema: 'd' data (text bytes, numeric bytes that are not keys), 'p' prefix/count, 'k' key,
-// 'c' computed (length/checksum). Returns nil if the walk does not end exactly at len(w)
+// 'n' computed length, 'c' computed checksum. Returns nil if the walk does not end exactly at len(w)
 // (then the fuzz leaves the bytes alone). Generation aid only.
 func SlotMap(t string, v map[string]any, w []int) []byte {
 	out := make([]byte, len(w))
@@ -300,7 +369,11 @@ func slotWalk(t string, v map[string]any, out []byte, pos *int) bool {
 			if !mark(out, pos, f.W, c) {
 				return false
 			}
-		case "len", "checksum":
+		case "len":
+			if !mark(out, pos, f.W, 'n') {
+				return false
+			}
+		case "checksum":
 			if !mark(out, pos, f.W, 'c') {
 				return false
 			}
@@ -466,6 +539,23 @@ func driveTables(c *DriverCtx) error {
 				if err := c.Run(ops); err != nil {
 					return err
 				}
+			}
+		}
+		// a receive loop: every registered key in turn, decoded into ONE recycled receiver object
+		for i := 0; i < c.N; i++ {
+			ops := []Op{}
+			perm := c.G.R.Perm(len(tab.Entries))
+			for j, pi := range perm {
+				e := tab.Entries[pi]
+				o := fmt.Sprintf("m%d", j)
+				ops = append(ops, Op{Op: "new", O: o, V: mk(e.Key, c.G.Value(e.Type, Canon))}, Op{Op: "encode", B: "b", O: o},
+					Op{Op: "decode", B: "b", O: "recv", T: owner, Fresh: j == 0, Tag: "recycled-receiver"})
+				if j >= 11 {
+					break
+				}
+			}
+			if err := c.Run(ops); err != nil {
+				return err
 			}
 		}
 		// unregistered keys
@@ -634,6 +724,30 @@ func driveHostile(c *DriverCtx) error {
 					}
 				}
 			}
+			// the self-computed length field set to hostile values (whole frame present)
+			if slots != nil {
+				for p := 0; p+4 <= len(w); p++ {
+					if slots[p] != 'n' || (p > 0 && slots[p-1] == 'n') {
+						continue
+					}
+					for _, pat := range [][]int{{0xff, 0xff, 0xff, 0xff}, {0x7f, 0xff, 0xff, 0xff}, {0x80, 0, 0, 0}, {0, 0, 0, 5}, {5, 0, 0, 0}, {0, 0, 1, 0}, {0, 1, 0, 0}} {
+						x := append([]int{}, w...)
+						copy(x[p:p+4], pat)
+						if err := emit(x, "length-field"); err != nil {
+							return err
+						}
+					}
+					// one more / one less than the truth
+					for _, d := range []int{1, -1} {
+						x := append([]int{}, w...)
+						x[p+3] = (x[p+3] + d + 256) % 256
+						x[p] = (x[p] + d + 256) % 256
+						if err := emit(x, "length-field"); err != nil {
+							return err
+						}
+					}
+				}
+			}
 			// truncation
 			if len(w) > 0 {
 				if err := emit(w[:r.Intn(len(w))], "truncated"); err != nil {
@@ -785,3 +899,45 @@ func driveRoundtripMeter(c *DriverCtx) error {
 }
 
 func init() { Drivers["roundtrip-meter"] = driveRoundtripMeter }
+
+// Long frames (C05): the checksummed frame types with bodies whose lists have hundreds of
+// 0xFF-heavy elements, so that byte sums run far beyond 16 bits; into empty and non-empty buffers.
+func driveBigFrames(c *DriverCtx) error {
+	for _, ft := range c.types() {
+		bf := BodyField(ft)
+		if bf == nil {
+			continue
+		}
+		tab := S.Tables[bf.Table]
+		for _, e := range tab.Entries {
+			hasList := false
+			for _, f := range S.Types[e.Type].Fields {
+				if f.Kind == "list" || f.Kind == "objlist" {
+					hasList = true
+				}
+			}
+			if !hasList {
+				continue
+			}
+			for i := 0; i < c.N; i++ {
+				c.G.Big = []int{40, 200, 600}[i%3]
+				body := c.G.Value(e.Type, Canon)
+				c.G.Big = 0
+				v := c.G.Value(ft, Canon)
+				v[tab.KeyField] = e.Key
+				v[bf.Name] = body
+				ops := []Op{{Op: "new", O: "m", V: v}}
+				if i%2 == 1 {
+					ops = append(ops, Op{Op: "write", B: "b", Bytes: c.junk(5)}, Op{Op: "next", B: "b", K: 2})
+				}
+				ops = append(ops, Op{Op: "encode", B: "b", O: "m", Tag: "big-frame"}, Op{Op: "encode", B: "b", O: "m", Tag: "again"})
+				if err := c.Run(ops); err != nil {
+					return err
+				}
+			}
+		}
+	}
+	return nil
+}
+
+func init() { Drivers["big-frames"] = driveBigFrames }
